@@ -18,15 +18,26 @@
     usize -- returns Ok exactly when [C03Core.accept] returns Some, with the same size and alignment,
     and an error otherwise (never a deferral or panic).  Together with the core theorem:
     [C03_model_accepts_iff_realisable].
-    STILL NOT PROVED: the thin wrapper [type_build] around those two functions (attribute scan,
-    statement loop producing the pending list); it is covered by the per-run comparison of the full
-    model, the core and the real implementation on the same descriptions.  The first theorem keeps
-    its [_partial] suffix for that reason. *)
+    THE WRAPPER TOO (C03Whole.v): [C03_type_build_accepts_iff] -- for every state, path and type
+    description in the class the property quantifies over ([class_okb], decidable: plain fields whose
+    types resolve with known size and power-of-two alignment, no vftable block / base field /
+    defaultable marker, numbers within usize), the model's whole [type_build] (attribute scan,
+    statement loop, placement, alignment checks) returns Ok exactly when the attributes are well
+    formed ([attrs_okb]: no negative size/align/singleton/address, doc values are strings) and the
+    description is [realisable]; [C03_type_build_size_align]: the resolved size and alignment are
+    the ones [accept] computes and the state is unchanged; [C03_type_build_rejects_otherwise]:
+    otherwise the result is an error value -- never a deferral or a panic;
+    [C03_bad_attrs_rejected], [C03_packed_with_align_never_accepted] (no class hypothesis).
+    The first theorem keeps its historical [_partial] suffix (its statement is pinned).
+    NOT PROVED: the same equivalence for types with a vftable block, base fields or the
+    defaultable marker (their layout parts are C01/C02/C06; acceptance there is compared per run). *)
 From Coq Require Import List NArith Bool.
 From PyxisModel Require Import Base Grammar SemTypes Registry Sem PlacementLemmas C03Core.
 From PyxisModel Require C03Refine.
 Import ListNotations.
 Local Open Scope N_scope.
+
+From PyxisModel Require C03Whole.
 
 Definition C03_full_statement : Prop :=
   forall ptr fs size align packed, wf_fields fs ->
@@ -111,3 +122,48 @@ Proof.
     + intros [r Hr]. discriminate.
 Qed.
 Print Assumptions C03_model_accepts_iff_realisable.
+
+Theorem C03_type_build_accepts_iff :
+  forall (st : sstate) (p : path) (v : vis) (d : gtypedef),
+    C03Whole.class_okb st p d = true ->
+    (exists (st' : sstate) (r : resolved), type_build st p v d = (st', Ok r)) <->
+    C03Whole.attrs_okb d = true /\
+    C03Whole.C.realisable (reg_ptr (st_reg st)) (C03Whole.fields_of st p d) 
+      (C03Whole.declared_size d) (C03Whole.declared_align d) (C03Whole.is_packed d).
+Proof. exact C03Whole.C03_type_build_iff. Qed.
+Print Assumptions C03_type_build_accepts_iff.
+
+Theorem C03_type_build_size_align :
+  forall (st : sstate) (p : path) (v : vis) (d : gtypedef) (st' : sstate) (r : resolved),
+    C03Whole.class_okb st p d = true ->
+    type_build st p v d = (st', Ok r) ->
+    st' = st /\
+    C03Whole.C.accept (reg_ptr (st_reg st)) (C03Whole.fields_of st p d) (C03Whole.declared_size d)
+      (C03Whole.declared_align d) (C03Whole.is_packed d) = Some (rs_size r, rs_align r).
+Proof. exact C03Whole.C03_type_build_size_align. Qed.
+Print Assumptions C03_type_build_size_align.
+
+Theorem C03_type_build_rejects_otherwise :
+  forall (st : sstate) (p : path) (v : vis) (d : gtypedef),
+    C03Whole.class_okb st p d = true ->
+    ~
+    (C03Whole.attrs_okb d = true /\
+     C03Whole.C.realisable (reg_ptr (st_reg st)) (C03Whole.fields_of st p d) 
+       (C03Whole.declared_size d) (C03Whole.declared_align d) (C03Whole.is_packed d)) ->
+    exists msg : string, type_build st p v d = (st, Err msg).
+Proof. exact C03Whole.C03_type_build_rejects_otherwise. Qed.
+Print Assumptions C03_type_build_rejects_otherwise.
+
+Theorem C03_bad_attrs_rejected :
+  forall (st : sstate) (p : path) (v : vis) (d : gtypedef),
+    C03Whole.class_okb st p d = true ->
+    C03Whole.attrs_okb d = false -> exists msg : string, type_build st p v d = (st, Err msg).
+Proof. exact C03Whole.bad_attrs_rejected. Qed.
+Print Assumptions C03_bad_attrs_rejected.
+
+Theorem C03_packed_with_align_never_accepted :
+  forall (st : sstate) (p : path) (v : vis) (d : gtypedef) (st' : sstate) (r : resolved),
+    C03Whole.is_packed d = true ->
+    C03Whole.declared_align d <> None -> type_build st p v d <> (st', Ok r).
+Proof. exact C03Whole.packed_with_align_never_accepted. Qed.
+Print Assumptions C03_packed_with_align_never_accepted.
